@@ -20,6 +20,7 @@ type gixIndex struct {
 	MaxLog    int64 // tsi1 MaxLogFileSize
 	CacheSize int   // tag value series-id cache size (0 = off)
 	PartN     int   // tsi1 partitions (0 = default 8); fixed for the life of the directory
+	HoldLog   bool  // the caller manages the roll threshold itself (crash-image ops)
 	SFile     *tsdb.SeriesFile
 	Idx       *tsi1.Index
 	FS        *tsdb.MeasurementFieldSet
@@ -141,7 +142,17 @@ func (x *gixIndex) DropSeries(ss []gixSeries, cascade bool) (dropped int, err er
 
 // DropSeriesOpt: with keepSeriesFile the series stays in the series file, which is what the
 // engine does when another shard of the database still holds the series.
+//
+// The log is kept from rolling (and a background compaction from starting) in the middle of
+// the drop: Partition.DropMeasurement stores tag keys/values that alias the mmap of older index
+// files in the active log, and a compaction racing with it can fault the process
+// (/verif/findings/C14-log-tombstones-alias-mmap-of-retired-index-files.md). These checks compact
+// at step boundaries (Quiesce) instead, as the design of C14 prescribes.
 func (x *gixIndex) DropSeriesOpt(ss []gixSeries, cascade, keepSeriesFile bool) (dropped int, err error) {
+	if !x.HoldLog {
+		x.setMaxLog(1 << 20)
+		defer x.setMaxLog(x.MaxLog)
+	}
 	names := map[string]struct{}{}
 	parts := map[int]struct{}{}
 	var ids []uint64
@@ -180,6 +191,12 @@ func (x *gixIndex) DropSeriesOpt(ss []gixSeries, cascade, keepSeriesFile bool) (
 		}
 	}
 	return dropped, nil
+}
+
+func (x *gixIndex) setMaxLog(n int64) {
+	for p := 0; p < int(x.Idx.PartitionN); p++ {
+		x.Idx.PartitionAt(p).VerifSetMaxLogFileSize(n)
+	}
 }
 
 func (x *gixIndex) CompactWait() {
